@@ -124,6 +124,14 @@ func C11() int {
 		{"empty-key-path", "unusable", func(dir, kp, key string) {}},
 		// the key path is also named as the output file: a valid key must survive byte for byte
 		{"valid+also-the-output-path", "unusable", func(dir, kp, key string) { wf(kp, key, 0o600) }},
+		// the output file reaches the key file under another name: a hard link, a symbolic link, another spelling of the path
+		{"valid+output-is-a-hard-link-of-the-key", "unusable", func(dir, kp, key string) { wf(kp, key, 0o600); os.Link(kp, filepath.Join(dir, "alias.out")) }},
+		{"valid+output-is-a-symlink-to-the-key", "unusable", func(dir, kp, key string) { wf(kp, key, 0o600); os.Symlink(kp, filepath.Join(dir, "alias.out")) }},
+		{"valid+output-is-another-spelling-of-the-key-path", "unusable", func(dir, kp, key string) { wf(kp, key, 0o600); os.Mkdir(filepath.Join(dir, "sub"), 0o755) }},
+		{"valid+output-through-a-symlinked-directory", "unusable", func(dir, kp, key string) { wf(kp, key, 0o600); os.Symlink(dir, filepath.Join(dir, "dirlink")) }},
+		// ... and the key does not exist yet: no key can be stored where the output goes, so the run fails and leaves the path as it was
+		{"absent+output-is-a-dangling-symlink-to-the-key-path", "either-absent", func(dir, kp, key string) { os.Symlink(kp, filepath.Join(dir, "alias.out")) }},
+		{"absent+output-through-a-symlinked-directory", "either-absent", func(dir, kp, key string) { os.Symlink(dir, filepath.Join(dir, "dirlink")) }},
 		{"parent-missing", "absent-unwritable", func(dir, kp, key string) {}},
 		{"parent-is-a-file", "absent-unwritable", func(dir, kp, key string) {}},
 	}
@@ -194,6 +202,14 @@ func C11() int {
 			keyIsOutput := jb.st.name == "valid+also-the-output-path"
 			if keyIsOutput {
 				outp = kp
+			}
+			switch {
+			case strings.Contains(jb.st.name, "output-is-a-hard-link"), strings.Contains(jb.st.name, "symlink-to-the-key"):
+				outp, keyIsOutput = filepath.Join(dir, "alias.out"), true
+			case strings.Contains(jb.st.name, "another-spelling"):
+				outp, keyIsOutput = dir+"/sub/..//./"+filepath.Base(kp), true
+			case strings.Contains(jb.st.name, "through-a-symlinked-directory"):
+				outp, keyIsOutput = filepath.Join(dir, "dirlink", filepath.Base(kp)), true
 			}
 			os.WriteFile(inp, []byte(strings.Join(inputs[inName], "\n")+"\n"), 0o644)
 			run := sut.Run{Args: append(append([]string{"redact", "--encrypt", "-q", kp}, extra...), "-o", outp, inp), Dir: dir}
